@@ -262,7 +262,7 @@ def run(ctx):
              "<meta name=a content=b><meta content='text/html;charset=x' http-equiv='CONTENT-TYPE' lang=en>"]
     for m in metas:
         for pad in (0, 1100):
-            for enc in ("utf-8", "koi8-r", "windows-1251", "shift_jis", "iso-8859-2"):
+            for enc in ("utf-8", "koi8-r", "windows-1251", "shift_jis", "iso-8859-2", "iso-2022-jp", "euc-jp", "gb18030"):
                 for omit in (False, True):
                     # the old declaration names a REAL other encoding: a declaration left stale must be visible to the reader
                     mm = m.replace("charset=x", "charset=" + ("koi8-r" if enc != "koi8-r" else "windows-1251"))
